@@ -98,27 +98,34 @@ def vft_assume(a, ps):
 
 
 def slices(tier, rng):
+    """thorough = the quick slices for both pointer sizes, wider graphs and the full signature / field / extern-value product of t_order_vft at
+    pointer size 4; every slice is sized to finish (an earlier, wider thorough tier ran past 100 minutes)"""
     out = []
-    def g(name, k, ps, nfmax, kinds, orders):
+    quick = tier == 'quick'
+    def g(name, k, ps, nfmax, kinds, orders, hook=order_hook):
         return Slice(name, 't_order_graph', 3 + 7 * k, lambda a: graph_assume(a, k, ps, nfmax, kinds, orders),
-                     opts={'map_order': order_hook, 'must_reach': ['ok/ok']}, ctx={'t': 'graph'})
-    out.append(g('graph-k2-ps4', 2, 4, 1, [0, 1, 2, 4, 5], [0]) if tier == 'quick' else g('graph-k2-ps4', 2, 4, 2, [0, 1, 2, 5], [0, 1]))
-    if tier != 'quick':
-        out.append(g('graph-k3-ps4', 3, 4, 1, [0, 1, 2, 5], [0]))
-        out.append(g('graph-k2-ps8', 2, 8, 2, [6, 1, 2, 5], [0]))
+                     opts={'map_order': hook, 'must_reach': ['ok/ok']}, ctx={'t': 'graph'})
+    out.append(g('graph-k2-ps4', 2, 4, 1, [0, 1, 2, 4, 5], [0]))
+    if not quick:
+        out.append(g('graph-k2-nf2-ps4', 2, 4, 2, [1, 2, 5], [0]))
+        out.append(g('graph-k3-ps4', 3, 4, 1, [1, 2], [0], hook=order_hook_global))
+        out.append(g('graph-k2-ps8', 2, 8, 1, [6, 1, 2, 5], [0]))
     from . import c11
+    use_kinds = (0, 1, 2, 3, 4, 8)
     out.append(Slice('scope-ps4', 't_order_scope', 11, lambda a: c11.assume(a, 4, 2) + [a[1] == 0, a[5] == 0, z3.ULE(a[3], 1)] +
-                     ([z3.Or(a[7 + i] == 0, a[7 + i] == 1, a[7 + i] == 2, a[7 + i] == 3, a[7 + i] == 4, a[7 + i] == 8) for i in range(2)] if tier == 'quick' else []),
+                     [z3.Or(*[a[7 + i] == k for k in (use_kinds if (quick or i == 1) else use_kinds + (5, 6, 7))]) for i in range(2)],
                      opts={'map_order': order_hook_global, 'must_reach': ['ok/ok']}, ctx={'t': 'scope'}))
     # the same modules added in every order (no hash-order choice involved: the add order itself is the varied dimension)
     out.append(Slice('module-add-order-ps4', 't_order_modules', 4, lambda a: [a[0] == 4, z3.ULE(a[1], 3), z3.ULE(a[2], 1), z3.ULE(a[3], 5)],
                      opts={'must_reach': ['ok/ok']}, ctx={'t': 'modules'}))
-    for ps in ((4,) if tier == 'quick' else (4, 8)):
-        out.append(Slice('vft-ps%d' % ps, 't_order_vft', 7, lambda a, ps=ps: vft_assume(a, ps) + [a[5] == 0, a[6] == 0] + ([a[4] == 0, a[3] == 0] if tier == 'quick' else []),
+    for ps in ((4,) if quick else (4, 8)):
+        full = (not quick) and ps == 4
+        out.append(Slice('vft-ps%d' % ps, 't_order_vft', 7, lambda a, ps=ps, full=full: vft_assume(a, ps) + [a[5] == 0, a[6] == 0] + ([] if full else [a[4] == 0, a[3] == 0]),
                          opts={'map_order': order_hook, 'must_reach': ['ok/ok']}, ctx={'t': 'vft'}))
         # an imported module declares a type named like a generated vftable type
         out.append(Slice('vft-import-ps%d' % ps, 't_order_vft', 7,
-                         lambda a, ps=ps: vft_assume(a, ps) + [a[5] == 1, a[6] == 0] + ([z3.Or(a[4] == 0, a[4] == 2), z3.Or(a[3] == 0, a[3] == 2), z3.ULE(a[1], 2), a[2] == 0] if tier == 'quick' else []),
+                         lambda a, ps=ps, full=full: vft_assume(a, ps) + [a[5] == 1, a[6] == 0, z3.Or(a[4] == 0, a[4] == 2), z3.Or(a[3] == 0, a[3] == 2)] +
+                                                     ([z3.ULE(a[1], 2), z3.ULE(a[2], 2)] if full else [z3.ULE(a[1], 2), a[2] == 0]),
                          opts={'map_order': order_hook_global, 'must_reach': ['ok/ok']}, ctx={'t': 'vft'}))
         # the module declares a type named like a generated vftable type: rejected in every order
         out.append(Slice('vft-collision-ps%d' % ps, 't_order_vft', 7, lambda a, ps=ps: vft_assume(a, ps) + [a[5] == 0, a[6] == 1, z3.ULE(a[1], 1), z3.ULE(a[2], 1), a[3] == 0, z3.Or(a[4] == 0, a[4] == 3)],
